@@ -576,6 +576,7 @@ type simSource struct {
 	// per splitter incarnation (= job start): what it assigned, and from which checkpoint
 	roundAssign map[int]map[string]map[string]int64
 	roundCkpt   map[int]uint64
+	roundWant   map[int]map[string]int64
 }
 
 func (s *simSource) Validate() error { return nil }
@@ -632,6 +633,23 @@ func (s *simSplitter) Start(ckpt *snapshotpb.SourceCheckpoint) error {
 		s.src.roundAssign[s.round] = rec
 		if ckpt != nil {
 			s.src.roundCkpt[s.round] = ckpt.CheckpointId
+			// what the published snapshot of that id says *now* (ids can be reused
+			// later, after a restore from an older savepoint)
+			s.src.w.mu.Lock()
+			if jc := s.src.w.allPublished[ckpt.CheckpointId]; jc != nil && len(jc.SourceCheckpoints) == 1 {
+				want := map[string]int64{}
+				for _, b := range jc.SourceCheckpoints[0].SplitStates {
+					var st simSplitState
+					if json.Unmarshal(b, &st) == nil {
+						want[st.SplitID] = st.Cursor
+					}
+				}
+				if s.src.roundWant == nil {
+					s.src.roundWant = map[int]map[string]int64{}
+				}
+				s.src.roundWant[s.round] = want
+			}
+			s.src.w.mu.Unlock()
 		}
 		s.src.mu.Unlock()
 	}()
